@@ -39,8 +39,9 @@ _SESSIONS = {}
 
 def target_plan(ns, base, tier):
     """The option sets of properties.yaml exercised per tier.  -> list of unbuilt targets."""
-    ts = [T.PyTarget(ns, base / "py", None),
-          T.PyTarget(ns, base / "py_O", None, optimize=True, ndarray=True),     # python -O: the generated asserts do not exist
+    alts = (2, 2) if tier == "quick" else (3, 4)     # alternative array / fragment spellings per request (see codec_pyworker.py)
+    ts = [T.PyTarget(ns, base / "py", None, alts=alts),
+          T.PyTarget(ns, base / "py_O", None, optimize=True, ndarray=True, alts=alts),     # python -O: the generated asserts do not exist
           T.CTarget(ns, base / "c_any", "any", False),
           T.CTarget(ns, base / "c_little_asserts", "little", True),
           T.CTarget(ns, base / "c_ovr", "little", False, extra_nnvg=["--enable-override-variable-array-capacity"], tag="c/little+override-capacity"),
